@@ -281,4 +281,309 @@ theorem C10_settles_on_latest_history (c : Cfg) (es : List Event) (hm : hasMemo 
   rw [h2, expected, run_manualLive c es hman, run_src]
   rfl
 
+/-! ## F-C10-1: the refutation witness -/
+
+/-- one source (0), an effect reading the derived and then a memo of the same source -/
+def c10Cfg : Cfg := { srcs := [0], init := none, eff := .dm }
+
+/-- first fetch loads (polls: derived, effect; `complete 0`; derived, effect), then `s := 1`
+and the EFFECT's task is polled before the derived's task -/
+def c10Events : List Event :=
+  [.poll 0, .poll 0, .complete 0, .poll 0, .poll 0, .set 0 1, .poll 1, .poll 0]
+
+theorem C10_dirty_stolen_witness :
+    settled (run c10Cfg c10Events) = true ∧
+    (run c10Cfg c10Events).nf = 1 ∧                       -- no second fetch was ever started
+    (run c10Cfg c10Events).src = [1] ∧
+    (run c10Cfg c10Events).value = some (fetchFn [0]) ∧     -- the result for the OLD input
+    expected (run c10Cfg c10Events) = some (fetchFn [1]) ∧
+    (run c10Cfg c10Events).stolen = true := by decide
+
+theorem C10_settles_on_latest_full_false : ¬ C10_settles_on_latest_full := by
+  intro h
+  have w := C10_dirty_stolen_witness
+  have := (h c10Cfg c10Events w.1).2
+  rw [w.2.2.2.1, w.2.2.2.2.1] at this
+  exact absurd this (by decide)
+
+
+/-! ## awaiters -/
+
+/-- At every settled point every task that awaited the derived has been resumed with a value
+(no awaiter is left parked in `wakers`, none is still waiting to be polled). -/
+theorem C10_awaiters_resumed (c : Cfg) (es : List Event) (hs : settled (run c es) = true) :
+    ∀ a ∈ (run c es).aws, a.done = true ∧ a.parked = false ∧ a.result ≠ none := by
+  have h := Inv.run c es
+  obtain ⟨_, hl, _, hrl⟩ := settled_waiting h hs
+  obtain ⟨_, _, hw⟩ := readyList_nil hrl
+  intro a ha
+  obtain ⟨h1, h2, h3⟩ := h.dc.aw a ha
+  have hp : a.parked = false := by
+    cases hp : a.parked
+    · rfl
+    · have := h2 hp; simp [hl] at this
+  have hd : a.done = true := by
+    cases hd : a.done
+    · rcases h1 hd with hw' | hp'
+      · have := hw a ha hw'; simp [hd] at this
+      · simp [hp] at hp'
+    · rfl
+  exact ⟨hd, hp, h3 hd⟩
+
+theorem awsResumed_of_settled (c : Cfg) (es : List Event) (hs : settled (run c es) = true) :
+    awsResumed (run c es) = true := by
+  unfold awsResumed
+  rw [List.all_eq_true]
+  intro a ha
+  obtain ⟨h1, _, h3⟩ := C10_awaiters_resumed c es hs a ha
+  cases hr : a.result <;> simp_all
+
+/-- An awaiter is only ever resumed while the loading indication is off, and then with the value the
+derived holds: never `None` (the `unwrap` in `AsyncDerivedFuture::poll` cannot panic). -/
+theorem C10_await_never_panics (c : Cfg) (es : List Event) :
+    (run c es).loading = false → (run c es).value ≠ none :=
+  (Inv.run c es).dc.r7
+
+/-! ## synchronous reads -/
+
+theorem applyResult_value (s : State) :
+    (applyResult s).value = s.value ∨ (applyResult s).value = some (fetchFn s.curInputs) := by
+  simp only [applyResult]
+  split <;> simp
+
+theorem fetchState_ready (s : State) (h : (fetchState s).curStatus = .ready) :
+    s.curStatus = .ready ∧ (fetchState s).curInputs = s.curInputs := by
+  simp only [fetchState, startFetch, dUpdateOwn] at h ⊢
+  (repeat' split at h) <;> simp_all
+
+theorem fetchState_value (s : State) : (fetchState s).value = s.value := by
+  simp only [fetchState, startFetch, dUpdateOwn]
+  (repeat' split) <;> rfl
+
+theorem dIter_value (s : State) :
+    (dIter s).1.value = s.value ∨
+    (s.curStatus = .ready ∧ (dIter s).1.value = some (fetchFn s.curInputs)) := by
+  rw [dIter_def]
+  split
+  · exact .inl rfl
+  · split
+    · split
+      · rename_i hr
+        obtain ⟨h1, h2⟩ := fetchState_ready s hr
+        rcases applyResult_value (fetchState s) with h | h
+        · exact .inl (h.trans (fetchState_value s))
+        · exact .inr ⟨h1, by rw [← h2]; exact h⟩
+      · exact .inl (fetchState_value s)
+    · exact .inl rfl
+
+theorem dIter_stop_value (s : State) (h : s.chan = false) : (dIter s).1.value = s.value := by
+  rw [dIter_def, if_pos h]
+
+theorem dLoop3_value (s : State) :
+    (dLoop 3 s).value = s.value ∨
+    (s.curStatus = .ready ∧ (dLoop 3 s).value = some (fetchFn s.curInputs)) := by
+  rw [dLoop_eq]
+  split
+  · rename_i hc
+    rw [dIter_stop_value _ (dIter_cont_chan s hc)]
+    exact dIter_value s
+  · exact dIter_value s
+
+theorem applyResult_curStatus (s : State) : (applyResult s).curStatus = .done := by
+  simp only [applyResult]
+  split <;> simp
+
+theorem pollD_value (s : State) :
+    (pollD s).value = s.value ∨
+    (s.curStatus = .ready ∧ (pollD s).value = some (fetchFn s.curInputs)) := by
+  unfold pollD
+  dsimp only
+  split
+  · split
+    · rcases dLoop3_value { s with dWoken := false, initialFut := false, curStatus := .dropped, pc := .waiting }
+        with h | ⟨h, _⟩
+      · exact .inl h
+      · simp at h
+    · rcases dLoop3_value { s with dWoken := false, pc := .waiting } with h | ⟨h1, h2⟩
+      · exact .inl h
+      · exact .inr ⟨h1, h2⟩
+  · rcases dLoop3_value { s with dWoken := false } with h | ⟨h1, h2⟩
+    · exact .inl h
+    · exact .inr ⟨h1, h2⟩
+  · split
+    · rename_i hr
+      rcases dLoop3_value (applyResult { s with dWoken := false }) with h | ⟨h, _⟩
+      · rcases applyResult_value { s with dWoken := false } with h' | h'
+        · exact .inl (h.trans h')
+        · exact .inr ⟨hr, h.trans h'⟩
+      · rw [applyResult_curStatus] at h; simp at h
+    · exact .inl rfl
+
+theorem effUpdate_value (s : State) : (effUpdate s).1.value = s.value := by
+  unfold effUpdate
+  split
+  · rfl
+  · exact (Frame.effAny _ s).value
+
+theorem runEffect_value (s : State) : (runEffect s).value = s.value := by
+  obtain ⟨ms, mv, mr, x, h⟩ := runEffect_spec s
+  rw [h]
+
+theorem eIter_value (s : State) : (eIter s).1.value = s.value := by
+  rw [eIter_def]
+  split
+  · rfl
+  · split
+    · show (runEffect _).value = _
+      rw [runEffect_value, effUpdate_value]
+    · show (effUpdate _).1.value = _
+      rw [effUpdate_value]
+
+theorem eLoop_value (n : Nat) (s : State) : (eLoop n s).value = s.value := by
+  induction n generalizing s with
+  | zero => rfl
+  | succ n ih =>
+    rw [eLoop]
+    split
+    · rw [ih, eIter_value]
+    · exact eIter_value s
+
+/-- A synchronous read after ANY event, in ANY state, returns what it returned before the event —
+unless the event is a manual write (then it is that value) or a poll that hands the derived's task the
+result of the fetch the harness completed (then it is the fetcher's result for the inputs that fetch
+captured).  In particular a read before completion returns the previous value (or `None`), never
+anything fabricated; source writes, refetches, completions, attachments and polls of other tasks
+never change what is read. -/
+theorem C10_sync_read_is_previous_or_none (s : State) (e : Event) :
+    (step s e).value = s.value ∨
+    (∃ v, e = .manualSet v ∧ (step s e).value = some v) ∨
+    (∃ j, e = .poll j ∧ s.curStatus = .ready ∧ (step s e).value = some (fetchFn s.curInputs)) := by
+  cases e with
+  | set i v =>
+    refine .inl ?_
+    simp only [step, setSrc, dMarkDirty, dNotify, mMarkDirty, eMarkCheck, eNotify]
+    (repeat' split) <;> rfl
+  | refetch =>
+    refine .inl ?_
+    simp only [step, dMarkDirty, dNotify]
+    (repeat' split) <;> rfl
+  | manualSet v => exact .inr (.inl ⟨v, rfl, by simp [step, manualSet]⟩)
+  | complete f =>
+    refine .inl ?_
+    simp only [step, complete]
+    split <;> rfl
+  | attach => exact .inl rfl
+  | poll j =>
+    simp only [step, pollNth]
+    split
+    · rename_i t _
+      cases t
+      · rcases pollD_value s with h | ⟨h1, h2⟩
+        · exact .inl h
+        · exact .inr (.inr ⟨j, rfl, h1, h2⟩)
+      · exact .inl (eLoop_value 3 _)
+      · exact .inl rfl
+    · exact .inl rfl
+  | get => exact .inl rfl
+
+/-! ## dependents -/
+
+/-- `notify_subs` (run for every completed fetch and every manual write — the only two places that
+change the value or turn the loading indication off) marks the subscribed effect dirty, sets its channel,
+wakes its task if it sleeps, and un-parks every awaiter. -/
+theorem C10_notify_marks_every_subscriber (s : State) (h : s.eSubD = true) :
+    (notifySubs s).eDirty = true ∧ (notifySubs s).eChan = true ∧
+    (s.eReg = true → (notifySubs s).eWoken = true) ∧
+    (∀ a ∈ (notifySubs s).aws, a.parked = false) ∧ (notifySubs s).loading = false := by
+  refine ⟨by simp [h], by simp [h], fun hr => by simp [h, hr], ?_, by simp⟩
+  intro a ha
+  rw [notifySubs_aws] at ha
+  rcases List.mem_map.mp ha with ⟨b, _, rfl⟩
+  unfold wakeAw
+  split <;> simp_all
+
+/-- End to end: whenever the executor is idle (no task woken) — after any history, at any point, not
+only at settled points — the subscriber effect has run and its last run saw exactly the value the
+derived holds now: no transition of the derived is ever lost on a dependent. -/
+theorem C10_dependents_notified_each_transition (c : Cfg) (es : List Event)
+    (he : hasEffect c.eff = true) (hidle : readyList (run c es) = []) :
+    (run c es).eFirst = false ∧ lastSeen (run c es) = some (run c es).value := by
+  have h := Inv.run c es
+  have he' : hasEffect (run c es).eff = true := by rw [run_effKind]; exact he
+  obtain ⟨_, hw, _⟩ := readyList_nil hidle
+  have hf : (run c es).eFirst = false := by
+    cases hf : (run c es).eFirst
+    · rfl
+    · have := h.ew.w1 he' hf; simp [hw] at this
+  refine ⟨hf, ?_⟩
+  rcases (h.ec.e2 he' hf).2 with hd | hs
+  · have := h.ec.e3 hd
+    have := h.ew.w2 hw
+    simp_all
+  · exact hs
+
+/-! ## the version test -/
+
+/-- `latest_version == this_version` can never fail: only the derived's own task increments `version`,
+and it does so once per fetch it starts (fetches are serialised by the task's loop). -/
+theorem C10_version_check_redundant (c : Cfg) (es : List Event) (h : (run c es).pc = .fetching) :
+    (run c es).fetchVersion = (run c es).version :=
+  ((Inv.run c es).dr.r6 h).2.1
+
+/-! ## non-vacuity: concrete histories that satisfy the hypotheses (kernel-evaluated) -/
+
+/-- two sources; two overlapping source writes while the first fetch is in flight; the first (now stale)
+result arrives last; an awaiter attached before anything is ready; an effect reading the derived -/
+def exCfg : Cfg := { srcs := [1, 2], init := none, eff := .d }
+
+def exEvents : List Event :=
+  [.poll 0, .poll 0,          -- derived's task reaches `fut.await` (fetch 0 on inputs 1,2); effect's first run
+   .attach, .poll 0,          -- an awaiter parks
+   .set 0 3, .set 1 4,        -- two writes during the fetch
+   .complete 0, .poll 0,      -- the stale result arrives: stored, then refetch on (3,4)
+   .poll 0, .poll 0,          -- effect sees the stale value; the awaiter parks again (loading is on)
+   .complete 1, .poll 0,      -- the fresh result
+   .poll 0, .poll 0]          -- effect; awaiter resumes
+
+example :
+    hasMemo exCfg.eff = false ∧ hasManual exEvents = false ∧
+    settled (run exCfg exEvents) = true ∧ (run exCfg exEvents).stolen = false ∧
+    (run exCfg exEvents).nf = 2 ∧ latestSrc exCfg exEvents = [3, 4] ∧
+    (run exCfg exEvents).value = some (fetchFn [3, 4]) ∧ (run exCfg exEvents).loading = false ∧
+    (run exCfg exEvents).aws.map (·.result) = [some (fetchFn [3, 4])] ∧
+    (run exCfg exEvents).eLog.map (·.1) = [none, some (fetchFn [1, 2]), some (fetchFn [3, 4])] ∧
+    readyList (run exCfg exEvents) = [] ∧ hasEffect exCfg.eff = true := by decide
+
+/-- the stale value is visible to a synchronous read between the two completions (previous value,
+not fabricated), while the loading indication is on -/
+example :
+    (run exCfg (exEvents.take 8)).value = some (fetchFn [1, 2]) ∧
+    (run exCfg (exEvents.take 8)).loading = true ∧
+    (run exCfg (exEvents.take 8)).pc = .fetching ∧
+    (run exCfg (exEvents.take 6)).value = none := by decide
+
+/-- a memo-reading effect polled AFTER the derived's task: nothing is stolen, the partial theorem applies -/
+example :
+    settled (run c10Cfg [.poll 0, .poll 0, .complete 0, .poll 0, .poll 0, .set 0 1, .poll 0, .poll 0,
+      .complete 1, .poll 0, .poll 0]) = true ∧
+    (run c10Cfg [.poll 0, .poll 0, .complete 0, .poll 0, .poll 0, .set 0 1, .poll 0, .poll 0,
+      .complete 1, .poll 0, .poll 0]).stolen = false ∧
+    (run c10Cfg [.poll 0, .poll 0, .complete 0, .poll 0, .poll 0, .set 0 1, .poll 0, .poll 0,
+      .complete 1, .poll 0, .poll 0]).value = some (fetchFn [1]) := by decide
+
+/-- manual writes: one during the fetch is overwritten by the fetch's result, one at rest stays -/
+example :
+    settled (run {} [.poll 0, .manualSet 50, .complete 0, .poll 0]) = true ∧
+    (run {} [.poll 0, .manualSet 50, .complete 0, .poll 0]).value = some (fetchFn [0]) ∧
+    settled (run {} [.poll 0, .complete 0, .poll 0, .manualSet 50]) = true ∧
+    (run {} [.poll 0, .complete 0, .poll 0, .manualSet 50]).value = some 50 ∧
+    expected (run {} [.poll 0, .complete 0, .poll 0, .manualSet 50]) = lastManualOf [.manualSet 50] := by
+  decide
+
+/-- a source write before the task's first poll drops the initial fetch (`already_dirty`) -/
+example :
+    (run {} [.set 0 5, .poll 0]).curInputs = [5] ∧ (run {} [.set 0 5, .poll 0]).nf = 2 ∧
+    settled (run {} [.set 0 5, .poll 0, .complete 1, .poll 0]) = true ∧
+    (run {} [.set 0 5, .poll 0, .complete 1, .poll 0]).value = some (fetchFn [5]) := by decide
+
 end Leptos.Async
